@@ -476,3 +476,30 @@ Proof.
   intros p i H. unfold schedule. destruct (si_indices i); [reflexivity|].
   destruct (N.ltb_spec (epoch_of_slot p (si_cur i)) (fork p)); [reflexivity | lia].
 Qed.
+
+(* Consecutive periods: the window of the next period (scheduled ahead of time) starts exactly one
+   slot after the window of this period ends -- the slot before a period's last slot belongs to this
+   period, the last slot itself to the next one -- so the windows tile the slot line: no slot
+   without a message duty, none with two. *)
+Lemma windows_tile : forall p epoch cur,
+  chain_ok p -> cur < period_end p epoch ->
+  period_start p (epoch + epp p) = period_end p epoch
+  /\ spec_first p (epoch + epp p) cur = spec_last p epoch + 1.
+Proof.
+  intros p epoch cur Hok Hc. pose proof Hok as (Hs & He & H2).
+  assert (Hq : (epoch + epp p) / epp p = epoch / epp p + 1).
+  { replace (epoch + epp p) with (epoch + 1 * epp p) by lia. apply N.div_add. lia. }
+  assert (Hst : period_start p (epoch + epp p) = period_end p epoch).
+  { unfold period_start, period_end, period_first_epoch, period_next_epoch. rewrite Hq. reflexivity. }
+  split; [exact Hst|].
+  unfold spec_first, spec_last. rewrite Hst.
+  assert (HE : 2 <= period_end p epoch).
+  { unfold period_end, period_next_epoch.
+    assert (spe p * epp p <= (epoch / epp p + 1) * epp p * spe p).
+    { replace ((epoch / epp p + 1) * epp p * spe p) with (epoch / epp p * (epp p * spe p) + spe p * epp p) by ring.
+      apply N.le_add_l. }
+    assert ((epoch / epp p + 1) * epp p * spe p <= N.max ((epoch / epp p + 1) * epp p) (fork p) * spe p)
+      by (apply N.mul_le_mono_r; lia).
+    lia. }
+  lia.
+Qed.
